@@ -425,7 +425,73 @@ async def tree_started_inside_a_component():
     return ok, f"resource names of the nested tree: {names} (expected default for both)"
 
 
-SCENARIOS = {f.__name__: f for f in (leaked_child_survives_gc, closed_after_teardown_raised_baseexception,
+async def optional_injection_is_the_optional_lookup():
+    """C19: an injected parameter declared Optional behaves like the explicit lookup with optional=True in every
+    respect: None when nothing matches, but when a matching factory itself fails with ResourceNotFound (one of
+    ITS dependencies is missing) that error comes out -- before the body runs -- as it does from the explicit
+    call; and a falsy resource is a resource"""
+    from typing import Optional
+    from asphalt.core import ResourceNotFound, get_resource, get_resource_nowait
+
+    class Engine:
+        pass
+
+    class Falsy(list):
+        pass
+    ran = []
+
+    def needs_engine() -> A:
+        get_resource_nowait(Engine)        # not there: ResourceNotFound from inside the factory
+        return A(1)
+
+    @inject
+    def f(*, dep: Optional[A] = resource()):
+        ran.append(("f", dep))
+        return dep
+
+    @inject
+    async def g(*, dep: Optional[A] = resource()):
+        ran.append(("g", dep))
+        return dep
+
+    @inject
+    def h(*, dep: Falsy = resource(), opt: Optional[Falsy] = resource()):
+        ran.append(("h", dep, opt))
+        return dep, opt
+
+    @inject
+    async def k(*, dep: Falsy = resource(), opt: Optional[Falsy] = resource()):
+        ran.append(("k", dep, opt))
+        return dep, opt
+    out = []
+    async with Context() as ctx:
+        # nothing matches: None, like the explicit optional lookup
+        out.append(("nothing", f(), await g(), get_resource_nowait(A, optional=True)))
+        ctx.add_resource_factory(needs_engine)
+        for name, call in (("explicit", lambda: get_resource_nowait(A, optional=True)),
+                           ("explicit-async", lambda: get_resource(A, optional=True)), ("sync", f), ("async", g)):
+            n = len(ran)
+            try:
+                r = call()
+                if hasattr(r, "__await__"):
+                    r = await r
+                out.append((name, "returned", r))
+            except ResourceNotFound:
+                out.append((name, "ResourceNotFound", len(ran) > n))
+        empty = Falsy()
+        ctx.add_resource(empty)
+        n = len(ran)
+        try:
+            r1, r2 = h(), await k()
+            out.append(("falsy", r1[0] is empty and r1[1] is empty and r2[0] is empty and r2[1] is empty))
+        except ResourceNotFound:
+            out.append(("falsy", "ResourceNotFound", len(ran) - n))
+    ok = out[0] == ("nothing", None, None, None) \
+        and all(o[1] == "ResourceNotFound" and o[2] is False for o in out[1:5]) and out[5] == ("falsy", True)
+    return ok, f"{out}"
+
+
+SCENARIOS = {f.__name__: f for f in (optional_injection_is_the_optional_lookup, leaked_child_survives_gc, closed_after_teardown_raised_baseexception,
                                      owner_left_by_baseexception_waits_for_tasks,
                                      handler_sees_the_escaping_exception_once, failed_subscription_leaves_nothing,
                                      redispatched_event_is_stamped_again, tree_started_inside_a_component,
